@@ -17,9 +17,7 @@ def run_case(params, prefix):
     fails = []
     run_ = res.get("run")
     if ex.hang:
-        key = base + "|hang"
-        if run_ is not None and _recov.sibling_failures(run_):
-            key = f"C16|hang|cause=two-steps-of-one-job-fail-with-overlapping-recoveries|prog={params['spec']['prog']}"
+        key = _recov.hang_key("C19", params, run_, base)
         fails.append((key, f"recoveries never terminate; pending {ex.pending[:8]}; failures {run_.failure_log if run_ else None}; "
                            f"executions {run_.exec_log if run_ else None}"))
     elif ex.error:
